@@ -22,6 +22,7 @@ import OFV.Proofs.C09Sum
 import OFV.Proofs.C09JwEq
 import OFV.Proofs.C09BkEq
 import OFV.Proofs.C09Struct
+import OFV.Proofs.C09Shaped
 
 namespace OFV.C09
 open OFV.Model.C09 OFV.Spec.C09
@@ -554,6 +555,42 @@ theorem bct_int_mul_sound (a : Code) (ha : Shaped a) (sa : Struct a) (m : Nat) (
     (hR : binaryCodeTransform 0 H c = .ok R) :
     Sem.den .qubit R [wq] [xq] = Spec.melF H out s :=
   bct_int_mul_sound' a ha sa m c h dom hA H R hwf v u hv hu wq xq s out hw hx hs ho hpres hR
+
+/-- `Struct` is also kept by concatenation `a * f` (`double_decoding`), whatever `f` is -/
+theorem struct_closed_concat (a f c : Code) (h : a.imulCode f = .ok c) (sa : Struct a) : Struct c :=
+  imulCode_struct a f c h sa
+
+/-- **binary_code_transform_sound for `c = a * f`** (concatenation): when `a` decodes what it encodes on `dom`, `f`
+decodes what it encodes on the encodings `e_a(v)`, `v ∈ dom`, and the terms of the Hamiltonian map `dom` to itself (or
+to 0), the transform with `c` has the Spec matrix elements between the encoded states of `dom`.  With
+`constructors_struct`, `struct_closed` and this, the hypotheses of `binary_code_transform_sound` are discharged for every
+code expression built from the constructors with `+`, integer `*` and concatenation. -/
+theorem bct_concat_sound (a f c : Code) (h : a.imulCode f = .ok c) (ha : Shaped a) (sa : Struct a)
+    (dom : List Nat → Prop)
+    (hA : ∀ v, dom v → v.length = a.nm ∧ (∀ x ∈ v, x ≤ 1) ∧ ValidOn a v ∧ ValidOn f (encode a v))
+    (H R : Model.Op) (hwf : ∀ tc ∈ H, ∀ g ∈ tc.1, g.2 ≤ 1 ∧ g.1 < a.nm)
+    (v u : List Nat) (hv : dom v) (hu : dom u)
+    (wq xq s out : Nat) (hw : bitsOf wq = encFn c v) (hx : bitsOf xq = encFn c u)
+    (hs : ∀ j, s.testBit j = (v.getD j 0 == 1)) (ho : ∀ j, out.testBit j = (u.getD j 0 == 1))
+    (hpres : ∀ tc ∈ H, ∀ k s', Spec.actFTerm tc.1 s = some (k, s') → dom (occList s' a.nm))
+    (hR : binaryCodeTransform 0 H c = .ok R) :
+    Sem.den .qubit R [wq] [xq] = Spec.melF H out s :=
+  bct_concat_sound' a f c h ha sa dom hA H R hwf v u hv hu wq xq s out hw hx hs ho hpres hR
+
+/-- every constructor of binary_codes.py yields a well-shaped code (`Shaped`: encoder `n_qubits x n_modes`, one decoder
+component per mode, decoder variables below `n_qubits`), for every parameter -/
+theorem constructors_shaped :
+    (∀ n c, jordanWignerCode n = .ok c → Shaped c) ∧ (∀ n c, bravyiKitaevCode n = .ok c → Shaped c) ∧
+    (∀ n c, parityCode n = .ok c → Shaped c) ∧ (∀ n odd c, checksumCode n odd = .ok c → Shaped c) ∧
+    (∀ h c, interleavedCode (2 * h) = .ok c → Shaped c) ∧ (∀ e c, weightOneBinaryAddressingCode e = .ok c → Shaped c) ∧
+    (∀ c, weightOneSegmentCode = .ok c → Shaped c) ∧ (∀ c, weightTwoSegmentCode = .ok c → Shaped c) :=
+  ⟨jw_shaped, bk_shaped, parity_shaped, checksum_shaped, interleaved_shaped, w1ba_shaped, w1seg_shaped, w2seg_shaped⟩
+
+/-- **every code expression the driver builds** (`CExpr.build`: the constructors combined with `+`, integer `*` and
+concatenation, to any depth) is well shaped and has the decoder structure `binary_code_transform_sound` needs — so the
+validity / soundness theorems compose over all code expressions. -/
+theorem code_expression_shaped_struct (e : CExpr) (c : Code) (h : e.build = .ok c) : Shaped c ∧ Struct c :=
+  cexpr_shaped_struct e c h
 
 /-! ## the literal segment codes (tables re-extracted from the source on every run) -/
 
